@@ -78,6 +78,52 @@ fn class_coherence(class: &str) -> Vec<(String, String)> {
             },
         }
     }
+    // the public helpers of rbx_reflection must see the same chain as our own walk of the data
+    {
+        let own: Vec<String> = seen.iter().cloned().collect::<Vec<_>>();
+        let mut own_order: Vec<String> = Vec::new();
+        let mut cur = Some(c);
+        let mut guard = 0;
+        while let Some(k) = cur {
+            own_order.push(k.name.to_string());
+            cur = k.superclass.as_ref().and_then(|s| d.classes.get(s.as_ref()));
+            guard += 1;
+            if guard > 64 {
+                break;
+            }
+        }
+        let via_vec: Option<Vec<String>> = crate::evidence::guarded(|| d.superclasses(c).map(|v| v.iter().map(|k| k.name.to_string()).collect())).ok().flatten();
+        let via_iter: Vec<String> = crate::evidence::guarded(|| d.superclasses_iter(c).take(65).map(|k| k.name.to_string()).collect()).unwrap_or_default();
+        if via_vec.as_ref() != Some(&own_order) {
+            out.push(("db|helper|superclasses".into(), format!("ReflectionDatabase::superclasses({}) = {:?}, the chain in the data is {:?}", class, via_vec, own_order)));
+        }
+        if via_iter != own_order {
+            out.push(("db|helper|superclasses_iter".into(), format!("ReflectionDatabase::superclasses_iter({}) = {:?}, the chain in the data is {:?}", class, via_iter, own_order)));
+        }
+        for anc in &own_order {
+            if let Some(a) = d.classes.get(anc.as_str()) {
+                if !d.has_superclass(c, a) {
+                    out.push(("db|helper|has_superclass".into(), format!("has_superclass({}, {}) is false although {} is on the chain", class, anc, anc)));
+                }
+            }
+        }
+        // a class that is not on the chain is not a superclass
+        for probe in ["Instance", "Object", "Part", "Folder", "GuiObject"] {
+            if let Some(a) = d.classes.get(probe) {
+                if d.has_superclass(c, a) != own_order.iter().any(|n| n == probe) {
+                    out.push(("db|helper|has_superclass".into(), format!("has_superclass({}, {}) disagrees with the chain {:?}", class, probe, own_order)));
+                }
+            }
+        }
+        // find_default_property against our own walk, for every default reachable for this class
+        for (k, v) in all_defaults(class) {
+            let got = crate::evidence::guarded(|| d.find_default_property(c, &k).cloned()).ok().flatten();
+            if got.as_ref().map(r) != Some(r(&v)) {
+                out.push(("db|helper|find_default_property".into(), format!("find_default_property({}, {}) = {:?}, our walk of the data finds {}", class, k, got.as_ref().map(r), r(&v))));
+            }
+        }
+        let _ = own;
+    }
     for (pname, desc) in c.properties.iter() {
         if desc.name.as_ref() != pname.as_ref() {
             out.push(("db|prop-name-key".into(), format!("{}.{} calls itself {}", class, pname, desc.name)));
